@@ -382,8 +382,26 @@ func RunProofRandom(w *tr.Writer, st *PStats, tid *int, r *rand.Rand) {
 		w   uint64
 	}
 	var rks []rk
+	ladder := r.Intn(6) == 0
+	if ladder {
+		// the deepest trie there is: the all-zero key and, for every nibble position, the key that differs from it there and
+		// only there: sixty-four nested branches, the longest proofs (one record per nibble plus the value record)
+		nk = 65
+	}
 	for len(rks) < nk {
 		k := make([]byte, 32)
+		if ladder {
+			if i := len(rks); i > 0 {
+				k[(i-1)/2] = []byte{0x10, 0x01}[(i-1)%2]
+			}
+			v := fmt.Sprintf("v%d", len(rks))
+			wt := uint64(1 + r.Intn(3))
+			rks = append(rks, rk{k, v, wt})
+			if err := t.Update(k, []byte(v), wt*S); err != nil {
+				panic(err)
+			}
+			continue
+		}
 		r.Read(k)
 		if r.Intn(3) == 0 && len(rks) > 0 { // share a long prefix with an existing key
 			copy(k, rks[r.Intn(len(rks))].key[:1+r.Intn(31)])
@@ -428,6 +446,9 @@ func RunProofRandom(w *tr.Writer, st *PStats, tid *int, r *rand.Rand) {
 	// the first proof is requested before the root hash is read for the first time (an in-memory prover has never hashed
 	// anything at this point)
 	b0 := uint64(1 + r.Intn(int(total)))
+	if ladder {
+		b0 = 1 // the all-zero key: the deepest leaf
+	}
 	_, honest0, err0 := t.GetBlockProof(b0)
 	root := append([]byte(nil), t.Root()...)
 	// another trie for cross-trie substitution
